@@ -12,6 +12,7 @@ import (
 func c13Extra(r *core.Run, pkg string) {
 	p := r.P
 	defer c13Routing(r)
+	defer c13R10(r, pkg) // round 10: the hash function keeps no state shared between concurrent lookups
 	isAWR := core.CallMethod("hash.ConsistentHash", "AddWithReplicas")
 	isRemove := core.CallMethod("hash.ConsistentHash", "Remove")
 	r.Check("D2/K2/replicas-at-least-weight-divisor", "ConsistentHash.replicas is never below the divisor of the weight formula (replicas·weight/100): every value stored to the field is a constant >= 100, or a caller-supplied number on a path on which it was tested to be >= 100 (with fewer replicas a node of small positive weight gets 0 virtual nodes: it receives no keys, and Get reports absence although a node of positive weight is present)", func(o *core.O) {
